@@ -115,9 +115,15 @@ def replay_violations(rep, out, what):
     summ = summ[0]
     if summ.get("setup_error"):
         raise vlib.ToolError("%s: setup failed: %s" % (what, summ["setup_error"]))
+    per_class = {}
     for v in out:
         if v.get("kind") == "violation":
-            rep.violation(v["class"], json.dumps(v.get("detail"))[:260], v)
+            per_class[v["class"]] = per_class.get(v["class"], 0) + 1
+            if per_class[v["class"]] <= 3:      # a few replays per class are enough
+                rep.violation(v["class"], json.dumps(v.get("detail"))[:260], v)
+    more = {k: n - 3 for k, n in per_class.items() if n > 3}
+    if more:
+        rep.extra["more_violations_of_listed_classes"] = more
     return summ
 
 
@@ -144,12 +150,6 @@ def run(tier, replay=None):
         with open(replay) as f:
             v = json.load(f)
         beh = os.path.join(wd, "one.ndjson")
-        g = vlib.tlc("ProxyProtocol", pp_cfg(wd, "gen1.cfg", pp_open, [0], [0], 1, "edges", emit=True), PID, workers=2,
-                     timeout=600, want_replay=True)
-        with open(beh, "w") as f:
-            for o in g["replays"]:
-                if o.get("kind") != "beh":
-                    f.write(json.dumps(o) + "\n")
         # the codec table of the full TLV range is needed for the class of the behaviour
         g2 = vlib.tlc("ProxyProtocol", pp_cfg(wd, "gen2.cfg", pp_open, tlv, [0], 1, "edges", emit=True), PID, workers=4,
                       timeout=600, want_replay=True)
@@ -250,6 +250,7 @@ def run(tier, replay=None):
     rep.extra["behaviours_generated"] = n_beh[0]
     rep.extra["segment_separations"] = [summ["separations_confirmed"], summ["separations"]]
     rep.extra["ipv6_used"] = summ["ipv6"]
+    rep.extra["config_loader_modes"] = summ.get("config_modes")
     if "UnixRejected" in devs and summ.get("unix_closed", 0):
         rep.known_finding_seen("unix-family-rejected")
         rep.known["unix-family-rejected"]["n"] += summ["unix_closed"] - 1
